@@ -62,6 +62,7 @@ type term struct {
 	a    []*term
 	vars uint64 // bitmask of variable indices (bit 63 = "64 or above")
 	s    string // cached SMT-LIB text
+	sz   int32  // tree size (saturating): decides whether the solver gets the term by name (define-fun) or inline
 }
 
 type symTable struct {
@@ -98,8 +99,12 @@ func intern(op termOp, w int, c uint64, a ...*term) *term {
 	}
 	t := &term{id: symtab.nextID, op: op, w: w, c: c, a: append([]*term(nil), a...)}
 	symtab.nextID++
+	t.sz = 1
 	for _, x := range a {
 		t.vars |= x.vars
+		if t.sz < 1<<24 {
+			t.sz += x.sz
+		}
 	}
 	if op == opVar {
 		if c >= 63 {
@@ -413,6 +418,13 @@ func mk(op termOp, w int, a ...*term) *term {
 	case opBvUlt, opBvUle:
 		// comparisons of a zero-extended narrow value against a constant
 		x, k := a[0], a[1]
+		// trivial bounds: 0 <= x, x <= max, x < 0, max < x
+		if op == opBvUle && (x.isConst() && x.c == 0 || k.isConst() && k.c == mask(k.w)) {
+			return kbool(true)
+		}
+		if op == opBvUlt && (k.isConst() && k.c == 0 || x.isConst() && x.c == mask(x.w)) {
+			return kbool(false)
+		}
 		if x.op == opZext && k.isConst() {
 			nw := x.a[0].w
 			if k.c > mask(nw) {
@@ -493,13 +505,13 @@ func maskb(w int) uint64 {
 	return mask(w)
 }
 
-func tnot(a *term) *term        { return mk(opNot, 0, a) }
-func tand(a ...*term) *term     { return mk(opAnd, 0, a...) }
-func tor(a ...*term) *term      { return mk(opOr, 0, a...) }
-func teq(a, b *term) *term      { return mk(opEq, 0, a, b) }
-func tite(c, a, b *term) *term  { return mk(opIte, a.w, c, a, b) }
-func tule(a, b *term) *term     { return mk(opBvUle, 0, a, b) }
-func tult(a, b *term) *term     { return mk(opBvUlt, 0, a, b) }
+func tnot(a *term) *term       { return mk(opNot, 0, a) }
+func tand(a ...*term) *term    { return mk(opAnd, 0, a...) }
+func tor(a ...*term) *term     { return mk(opOr, 0, a...) }
+func teq(a, b *term) *term     { return mk(opEq, 0, a, b) }
+func tite(c, a, b *term) *term { return mk(opIte, a.w, c, a, b) }
+func tule(a, b *term) *term    { return mk(opBvUle, 0, a, b) }
+func tult(a, b *term) *term    { return mk(opBvUlt, 0, a, b) }
 func tinrange(x *term, lo, hi uint64) *term {
 	if lo == hi {
 		return teq(x, kconst(lo, x.w))
@@ -550,6 +562,26 @@ func (t *term) String() string {
 		t.s = s
 	}
 	return s
+}
+
+// render prints t with its children printed by sub (the solver back end passes a function that names large shared
+// subterms once, so that the text sent per query stays proportional to the DAG, not the tree).
+func (t *term) render(sub func(*term) string) string {
+	switch t.op {
+	case opConst, opVar:
+		return t.String()
+	case opExtract:
+		return fmt.Sprintf("((_ extract %d 0) %s)", t.w-1, sub(t.a[0]))
+	case opZext:
+		return fmt.Sprintf("((_ zero_extend %d) %s)", t.w-t.a[0].w, sub(t.a[0]))
+	case opSext:
+		return fmt.Sprintf("((_ sign_extend %d) %s)", t.w-t.a[0].w, sub(t.a[0]))
+	}
+	parts := make([]string, len(t.a))
+	for i, x := range t.a {
+		parts[i] = sub(x)
+	}
+	return "(" + opNames[t.op] + " " + strings.Join(parts, " ") + ")"
 }
 
 // eval computes t under model m (one value per variable index).
@@ -899,5 +931,5 @@ func symConv(tdst types.Type, x symv) value {
 // unsupportedErr marks an engine gap: the path is ended as inconclusive.
 type unsupportedErr struct{ msg string }
 
-func (u unsupportedErr) Error() string { return "unsupported: " + u.msg }
+func (u unsupportedErr) Error() string      { return "unsupported: " + u.msg }
 func unsupported(msg string) unsupportedErr { return unsupportedErr{msg} }
